@@ -245,3 +245,1094 @@ Proof. apply reach_n_inv. Qed.
 
 Lemma reach_declared u k : In k (reach u) -> In k (decl_keys u).
 Proof. apply reach_n_inv. Qed.
+
+(* ------------------------------------------------------------------ *)
+(* the component table: keys *)
+
+Lemma in_keys_set_comp t n c x : In x (keys (set_comp t n c)) <-> In x (keys t) \/ x = n.
+Proof.
+  unfold keys. induction t as [|[m c'] t IH]; simpl.
+  - split; intros [H|H]; auto; try contradiction.
+  - destruct (str_eqb m n) eqn:E; simpl.
+    + apply str_eqb_spec in E. subst m. split; intros H; intuition (subst; auto).
+    + rewrite IH. tauto.
+Qed.
+
+Lemma nodup_keys_set_comp t n c : NoDup (keys t) -> NoDup (keys (set_comp t n c)).
+Proof.
+  unfold keys. induction t as [|[m c'] t IH]; simpl; intros H.
+  - constructor; [intros []|constructor].
+  - inversion H as [|? ? Hm Ht]; subst. destruct (str_eqb m n) eqn:E; simpl.
+    + constructor; auto.
+    + constructor; [|apply IH; auto].
+      intros Hin. apply (in_keys_set_comp t n c m) in Hin. destruct Hin as [Hin|Hin]; [auto|].
+      subst. rewrite str_eqb_refl in E. discriminate.
+Qed.
+
+Lemma lookup_set_comp_same t n c : lookup (set_comp t n c) n = Some c.
+Proof.
+  induction t as [|[m c'] t IH]; simpl.
+  - rewrite str_eqb_refl. reflexivity.
+  - destruct (str_eqb m n) eqn:E; simpl; rewrite E; auto.
+Qed.
+
+Lemma lookup_set_comp_other t n c m : n <> m -> lookup (set_comp t n c) m = lookup t m.
+Proof.
+  intros Hne. induction t as [|[k c'] t IH]; simpl.
+  - destruct (str_eqb n m) eqn:E; auto. apply str_eqb_spec in E. contradiction.
+  - destruct (str_eqb k n) eqn:E; simpl.
+    + apply str_eqb_spec in E. subst k.
+      destruct (str_eqb n m) eqn:E2; auto. apply str_eqb_spec in E2. contradiction.
+    + destruct (str_eqb k m); auto.
+Qed.
+
+Lemma lookup_some_in t n c : lookup t n = Some c -> In n (keys t).
+Proof.
+  unfold keys. induction t as [|[m c'] t IH]; simpl; [discriminate|].
+  destruct (str_eqb m n) eqn:E; intros H.
+  - apply str_eqb_spec in E. auto.
+  - auto.
+Qed.
+
+Lemma lookup_none_notin t n : lookup t n = None -> ~ In n (keys t).
+Proof.
+  unfold keys. induction t as [|[m c'] t IH]; simpl; [tauto|].
+  destruct (str_eqb m n) eqn:E; intros H; [discriminate|].
+  intros [H'|H']; [subst; rewrite str_eqb_refl in E; discriminate|]. apply IH; auto.
+Qed.
+
+(* entries of a table after an assignment *)
+Lemma in_set_comp t n c e : In e (set_comp t n c) -> e = (n, c) \/ In e t.
+Proof.
+  induction t as [|[m c'] t IH]; simpl.
+  - intros [H|[]]; auto.
+  - destruct (str_eqb m n) eqn:E; simpl.
+    + apply str_eqb_spec in E. subst. intros [H|H]; auto.
+    + intros [H|H]; auto. destruct (IH H); auto.
+Qed.
+
+(* ---- assignments in a row ---- *)
+
+Section FoldSet.
+  Variable f : decl -> comp.
+
+  Definition set_all (l : list decl) (t : table) : table :=
+    fold_left (fun t d => set_comp t (d_name d) (f d)) l t.
+
+  Lemma set_all_keys l : forall t x, In x (keys (set_all l t)) <-> In x (keys t) \/ In x (map d_name l).
+  Proof.
+    induction l as [|d l IH]; intros t x; simpl; [tauto|].
+    unfold set_all in *. simpl. rewrite IH, in_keys_set_comp. intuition (subst; auto).
+  Qed.
+
+  Lemma set_all_nodup l : forall t, NoDup (keys t) -> NoDup (keys (set_all l t)).
+  Proof.
+    induction l as [|d l IH]; intros t H; simpl; auto.
+    unfold set_all in *. simpl. apply IH. apply nodup_keys_set_comp; auto.
+  Qed.
+
+  Lemma set_all_lookup_other l : forall t n, ~ In n (map d_name l) -> lookup (set_all l t) n = lookup t n.
+  Proof.
+    induction l as [|d l IH]; intros t n H; simpl; auto.
+    unfold set_all in *. simpl in *. rewrite IH by tauto.
+    apply lookup_set_comp_other. intros E. apply H. auto.
+  Qed.
+
+  Lemma set_all_lookup l : forall t d, NoDup (map d_name l) -> In d l -> lookup (set_all l t) (d_name d) = Some (f d).
+  Proof.
+    induction l as [|d0 l IH]; intros t d Hn Hd; simpl; [destruct Hd|].
+    inversion Hn as [|? ? Hni Hn']; subst. unfold set_all in *. simpl.
+    destruct Hd as [->|Hd].
+    - fold (set_all l (set_comp t (d_name d) (f d))).
+      rewrite set_all_lookup_other by exact Hni. apply lookup_set_comp_same.
+    - apply IH; auto.
+  Qed.
+
+  Lemma set_all_entries l : forall t e, In e (set_all l t) -> In e t \/ exists d, In d l /\ e = (d_name d, f d).
+  Proof.
+    induction l as [|d l IH]; intros t e H; simpl in *; auto.
+    unfold set_all in *. simpl in H. apply IH in H. destruct H as [H|[d' [H1 H2]]].
+    - apply in_set_comp in H. destruct H as [H|H]; auto. right. exists d; auto.
+    - right. exists d'; auto.
+  Qed.
+End FoldSet.
+
+(* ---- the 3.0 write-through keeps the key set ---- *)
+
+Lemma write_through_keys t sch v t' : write_through t sch v = Some t' -> keys t' = keys t.
+Proof.
+  unfold write_through. destruct sch; try (intros H; inversion H; reflexivity).
+  destruct (touches v); [|intros H; inversion H; reflexivity].
+  destruct (lookup t name) eqn:E; [|discriminate]. intros H; inversion H; subst. clear H.
+  apply lookup_some_in in E. unfold keys in *.
+  induction t as [|[m c'] t IH]; simpl in *; [destruct E|].
+  destruct (str_eqb m name) eqn:E2; simpl; [reflexivity|].
+  f_equal. apply IH. destruct E as [E|E]; auto. subst. rewrite str_eqb_refl in E2. discriminate.
+Qed.
+
+Definition thread {A} (g : table -> A -> option table) (acc : option table) (x : A) : option table :=
+  match acc with Some t => g t x | None => None end.
+
+Lemma thread_none {A} (g : table -> A -> option table) l : fold_left (thread g) l None = None.
+Proof. induction l; simpl; auto. Qed.
+
+Lemma thread_keys {A} (g : table -> A -> option table) :
+  (forall t x t', g t x = Some t' -> keys t' = keys t) ->
+  forall l t t', fold_left (thread g) l (Some t) = Some t' -> keys t' = keys t.
+Proof.
+  intros Hg. induction l as [|x l IH]; intros t t' H; simpl in H.
+  - inversion H; reflexivity.
+  - destruct (g t x) eqn:E; [|rewrite thread_none in H; discriminate].
+    rewrite (IH _ _ H). eapply Hg; eauto.
+Qed.
+
+Lemma emit_struct30_some acc name fs t' :
+  emit_struct30 acc name fs = Some t' ->
+  exists t t1, acc = Some t /\ keys t1 = keys t /\ t' = set_comp t1 name (struct_comp fs).
+Proof.
+  unfold emit_struct30. destruct acc as [t|].
+  - change (fun a f => match a with
+                       | Some t0 => write_through t0 (schema_of_texpr (f_type f)) (f_validate f)
+                       | None => None end)
+      with (thread (fun t0 (f : field) => write_through t0 (schema_of_texpr (f_type f)) (f_validate f))).
+    destruct (fold_left _ (plain_fields fs) (Some t)) as [t1|] eqn:E; [|discriminate].
+    intros H; inversion H; subst. exists t, t1. split; [reflexivity|]. split; [|reflexivity].
+    eapply thread_keys; [|exact E]. intros t2 x t3 Hx. eapply write_through_keys; exact Hx.
+  - change (fun a f => match a with
+                       | Some t0 => write_through t0 (schema_of_texpr (f_type f)) (f_validate f)
+                       | None => None end)
+      with (thread (fun t0 (f : field) => write_through t0 (schema_of_texpr (f_type f)) (f_validate f))).
+    rewrite thread_none. discriminate.
+Qed.
+
+Definition structs30 (l : list decl) (acc : option table) : option table :=
+  fold_left (fun a d => emit_struct30 a (d_name d) (struct_fields d)) l acc.
+
+Lemma structs30_none l : structs30 l None = None.
+Proof.
+  unfold structs30. induction l as [|d l IH]; simpl; auto.
+  replace (emit_struct30 None (d_name d) (struct_fields d)) with (@None table); auto.
+  unfold emit_struct30.
+  change (fun a f => match a with
+                     | Some t0 => write_through t0 (schema_of_texpr (f_type f)) (f_validate f)
+                     | None => None end)
+    with (thread (fun t0 (f : field) => write_through t0 (schema_of_texpr (f_type f)) (f_validate f))).
+  rewrite thread_none. reflexivity.
+Qed.
+
+Lemma structs30_keys l : forall t t', structs30 l (Some t) = Some t' ->
+  (forall x, In x (keys t') <-> In x (keys t) \/ In x (map d_name l)) /\ (NoDup (keys t) -> NoDup (keys t')).
+Proof.
+  induction l as [|d l IH]; intros t t' H.
+  - unfold structs30 in H; simpl in H. inversion H; subst. split; [intros; simpl; tauto|auto].
+  - unfold structs30 in H. simpl in H.
+    destruct (emit_struct30 (Some t) (d_name d) (struct_fields d)) as [t2|] eqn:E.
+    + fold (structs30 l (Some t2)) in H. destruct (IH _ _ H) as [IH1 IH2].
+      apply emit_struct30_some in E. destruct E as [t0 [t1 [E0 [E1 E2]]]]. inversion E0; subst t0. subst t2.
+      split.
+      * intros x. rewrite IH1, in_keys_set_comp, E1. simpl. intuition (subst; auto).
+      * intros Hn. apply IH2. apply nodup_keys_set_comp. rewrite E1. exact Hn.
+    + fold (structs30 l None) in H. rewrite structs30_none in H. discriminate.
+Qed.
+
+(* ---- keys of the whole table ---- *)
+
+Definition expected_names (u : universe) : list str :=
+  map d_name (reached_decls u) ++ (if plain_error_present u then [rfc_name] else []).
+
+Lemma kind_cases d : (is_enum d = true /\ is_struct d = false /\ is_alias d = false) \/
+                     (is_enum d = false /\ is_struct d = true /\ is_alias d = false) \/
+                     (is_enum d = false /\ is_struct d = false /\ is_alias d = true).
+Proof. unfold is_enum, is_struct, is_alias. destruct (d_body d); auto. Qed.
+
+Lemma reached_names_split u x :
+  In x (map d_name (reached_decls u)) <->
+  In x (map d_name (sorted_enums u)) \/ In x (map d_name (sorted_structs u)) \/ In x (map d_name (alias_decls u)).
+Proof.
+  unfold sorted_enums, sorted_structs, alias_decls. rewrite !in_map_iff. split.
+  - intros [d [E H]]. destruct (kind_cases d) as [[K _]|[[_ [K _]]|[_ [_ K]]]].
+    + left. exists d. split; auto. apply sort_by_in. apply filter_In; auto.
+    + right; left. exists d. split; auto. apply sort_by_in. apply filter_In; auto.
+    + right; right. exists d. split; auto. apply filter_In; auto.
+  - intros [[d [E H]]|[[d [E H]]|[d [E H]]]]; exists d; split; auto.
+    + apply sort_by_in in H. apply filter_In in H. tauto.
+    + apply sort_by_in in H. apply filter_In in H. tauto.
+    + apply filter_In in H. tauto.
+Qed.
+
+Lemma models_table_keys v u t : models_table v u = Some t ->
+  (forall x, In x (keys t) <-> In x (expected_names u)) /\ NoDup (keys t).
+Proof.
+  unfold models_table.
+  set (t0 := fold_left (fun t d => set_comp t (d_name d) (component v d)) (sorted_enums u) []).
+  assert (K0 : (forall x, In x (keys t0) <-> In x (map d_name (sorted_enums u))) /\ NoDup (keys t0)).
+  { subst t0. fold (set_all (component v) (sorted_enums u) []). split.
+    - intros x. rewrite set_all_keys. simpl. tauto.
+    - apply set_all_nodup. constructor. }
+  destruct K0 as [K0 N0].
+  assert (K1 : forall t1,
+             match v with
+             | V30 => fold_left (fun a d => emit_struct30 a (d_name d) (struct_fields d)) (sorted_structs u) (Some t0)
+             | V31 => Some (fold_left (fun t d => set_comp t (d_name d) (component v d)) (sorted_structs u) t0)
+             end = Some t1 ->
+             (forall x, In x (keys t1) <-> In x (map d_name (sorted_enums u)) \/ In x (map d_name (sorted_structs u)))
+             /\ NoDup (keys t1)).
+  { intros t1. destruct v.
+    - intros H. fold (structs30 (sorted_structs u) (Some t0)) in H.
+      destruct (structs30_keys _ _ _ H) as [A B]. split; auto. intros x. rewrite A, K0. tauto.
+    - intros H. inversion H; subst t1. fold (set_all (component V31) (sorted_structs u) t0). split.
+      + intros x. rewrite set_all_keys, K0. tauto.
+      + apply set_all_nodup; auto. }
+  destruct (match v with
+            | V30 => _
+            | V31 => _
+            end) as [t1|] eqn:E1; [|discriminate].
+  destruct (K1 t1 eq_refl) as [K1a K1b]. clear K1.
+  intros H. inversion H; subst t. clear H.
+  fold (set_all (component v) (alias_decls u)
+                (if plain_error_present u then set_comp t1 rfc_name rfc_comp else t1)).
+  split.
+  - intros x. rewrite set_all_keys. unfold expected_names. rewrite in_app_iff, reached_names_split.
+    destruct (plain_error_present u).
+    + rewrite in_keys_set_comp, K1a. simpl. intuition (subst; auto).
+    + rewrite K1a. simpl. tauto.
+  - apply set_all_nodup. destruct (plain_error_present u); auto. apply nodup_keys_set_comp; auto.
+Qed.
+
+Lemma route_write_through_keys cr t t' : route_write_through (Some t) cr = Some t' -> keys t' = keys t.
+Proof.
+  unfold route_write_through.
+  change (fun a p => match a with
+                     | Some t0 => write_through t0 (schema_of_texpr (rp_type p)) (rp_reduced p)
+                     | None => None end)
+    with (thread (fun t0 (p : rparam) => write_through t0 (schema_of_texpr (rp_type p)) (rp_reduced p))).
+  apply thread_keys. intros; eapply write_through_keys; eauto.
+Qed.
+
+Lemma route_write_through_none cr : route_write_through None cr = None.
+Proof.
+  unfold route_write_through.
+  change (fun a p => match a with
+                     | Some t0 => write_through t0 (schema_of_texpr (rp_type p)) (rp_reduced p)
+                     | None => None end)
+    with (thread (fun t0 (p : rparam) => write_through t0 (schema_of_texpr (rp_type p)) (rp_reduced p))).
+  apply thread_none.
+Qed.
+
+Lemma routes_write_through_keys l : forall t t',
+  fold_left route_write_through l (Some t) = Some t' -> keys t' = keys t.
+Proof.
+  induction l as [|cr l IH]; intros t t' H; simpl in H.
+  - inversion H; reflexivity.
+  - destruct (route_write_through (Some t) cr) as [t1|] eqn:E.
+    + rewrite (IH _ _ H). eapply route_write_through_keys; eauto.
+    + exfalso. clear -H. induction l as [|x l IHl]; simpl in H; [discriminate|].
+      rewrite route_write_through_none in H. auto.
+Qed.
+
+Lemma routes_write_through_none l : fold_left route_write_through l None = None.
+Proof. induction l as [|x l IH]; simpl; auto. rewrite route_write_through_none. exact IH. Qed.
+
+(* C07 closure: the keys of components.schemas are the names of the reached declarations, plus
+   the error model exactly when the plain error type is present *)
+Theorem components_keys v u t : components v u = Some t ->
+  (forall x, In x (keys t) <-> In x (expected_names u)) /\ NoDup (keys t).
+Proof.
+  destruct v; simpl.
+  - destruct (models_table V30 u) as [t0|] eqn:E.
+    + intros H. rewrite (routes_write_through_keys _ _ _ H). apply (models_table_keys V30 u t0 E).
+    + rewrite routes_write_through_none. discriminate.
+  - apply models_table_keys.
+Qed.
+
+Definition unique_type_names (u : universe) : Prop := NoDup (expected_names u).
+
+Theorem components_closure v u t :
+  components v u = Some t -> unique_type_names u -> Permutation (keys t) (expected_names u).
+Proof.
+  intros H Hu. destruct (components_keys v u t H) as [A B].
+  apply NoDup_Permutation; auto.
+Qed.
+
+(* ------------------------------------------------------------------ *)
+(* the table without shared-pointer effects, and what it maps each name to *)
+
+Definition with_rfc (u : universe) (t : table) : table :=
+  if plain_error_present u then set_comp t rfc_name rfc_comp else t.
+
+Definition generic_table (v : dialect) (u : universe) : table :=
+  set_all (component v) (alias_decls u)
+          (with_rfc u (set_all (component v) (sorted_structs u) (set_all (component v) (sorted_enums u) []))).
+
+Lemma models_table_V31 u : models_table V31 u = Some (generic_table V31 u).
+Proof. reflexivity. Qed.
+
+(* no `oneof` / `enum` rule sits on a usage whose schema is a bare reference *)
+Definition quiet_field (f : field) : bool :=
+  match schema_of_texpr (f_type f) with SRef _ => negb (touches (f_validate f)) | _ => true end.
+
+Definition quiet_param (p : rparam) : bool :=
+  match schema_of_texpr (rp_type p) with SRef _ => negb (touches (rp_reduced p)) | _ => true end.
+
+Definition quiet (u : universe) : bool :=
+  forallb (fun d => forallb quiet_field (plain_fields (struct_fields d))) (u_decls u) &&
+  forallb (fun r => forallb quiet_param (r_params r)) (all_routes_u u).
+
+Lemma write_through_quiet t sch v :
+  match sch with SRef _ => negb (touches v) | _ => true end = true -> write_through t sch v = Some t.
+Proof.
+  unfold write_through. destruct sch; auto. intros H. apply negb_true_iff in H. rewrite H. reflexivity.
+Qed.
+
+Lemma thread_quiet {A} (g : table -> A -> option table) l t :
+  (forall x, In x l -> g t x = Some t) -> fold_left (thread g) l (Some t) = Some t.
+Proof.
+  induction l as [|x l IH]; intros H; simpl; auto.
+  rewrite (H x) by (left; reflexivity). apply IH. intros y Hy. apply H. right; auto.
+Qed.
+
+Lemma emit_struct30_quiet t name fs :
+  forallb quiet_field (plain_fields fs) = true ->
+  emit_struct30 (Some t) name fs = Some (set_comp t name (struct_comp fs)).
+Proof.
+  intros H. unfold emit_struct30.
+  change (fun a f => match a with
+                     | Some t0 => write_through t0 (schema_of_texpr (f_type f)) (f_validate f)
+                     | None => None end)
+    with (thread (fun t0 (f : field) => write_through t0 (schema_of_texpr (f_type f)) (f_validate f))).
+  rewrite thread_quiet; auto.
+  intros f Hf. apply write_through_quiet. rewrite forallb_forall in H. apply (H f Hf).
+Qed.
+
+Lemma component_struct v d : is_struct d = true -> component v d = struct_comp (struct_fields d).
+Proof. unfold is_struct, component, struct_fields. destruct (d_body d); try discriminate. reflexivity. Qed.
+
+Lemma structs30_quiet l : forall t,
+  (forall d, In d l -> is_struct d = true /\ forallb quiet_field (plain_fields (struct_fields d)) = true) ->
+  structs30 l (Some t) = Some (set_all (component V30) l t).
+Proof.
+  induction l as [|d l IH]; intros t H; [reflexivity|].
+  unfold structs30, set_all. simpl.
+  destruct (H d (or_introl eq_refl)) as [K Q].
+  rewrite emit_struct30_quiet by exact Q. rewrite (component_struct V30 d K).
+  apply IH. intros d' Hd'. apply H. right; auto.
+Qed.
+
+Lemma in_reached_decls u d : In d (reached_decls u) -> In d (u_decls u).
+Proof. unfold reached_decls. rewrite filter_In. tauto. Qed.
+
+Lemma models_table_V30_quiet u : quiet u = true -> models_table V30 u = Some (generic_table V30 u).
+Proof.
+  intros Q. unfold quiet in Q. apply andb_true_iff in Q. destruct Q as [Q _].
+  rewrite forallb_forall in Q.
+  unfold models_table.
+  fold (set_all (component V30) (sorted_enums u) []).
+  fold (structs30 (sorted_structs u) (Some (set_all (component V30) (sorted_enums u) []))).
+  rewrite structs30_quiet.
+  - reflexivity.
+  - intros d Hd. unfold sorted_structs in Hd. apply sort_by_in in Hd. apply filter_In in Hd.
+    destruct Hd as [Hd K]. split; auto. apply Q. apply in_reached_decls; auto.
+Qed.
+
+Lemma route_write_through_quiet t cr :
+  forallb quiet_param (r_params (snd cr)) = true -> route_write_through (Some t) cr = Some t.
+Proof.
+  intros H. unfold route_write_through.
+  change (fun a p => match a with
+                     | Some t0 => write_through t0 (schema_of_texpr (rp_type p)) (rp_reduced p)
+                     | None => None end)
+    with (thread (fun t0 (p : rparam) => write_through t0 (schema_of_texpr (rp_type p)) (rp_reduced p))).
+  apply thread_quiet. intros p Hp. apply write_through_quiet. rewrite forallb_forall in H. apply (H p Hp).
+Qed.
+
+Lemma in_shown_routes u c r : In (c, r) (shown_routes u) -> In r (all_routes_u u).
+Proof.
+  unfold shown_routes, all_routes_u, sorted_ctrls. rewrite !in_flat_map.
+  intros [c' [Hc H]]. apply in_map_iff in H. destruct H as [r' [E Hr]]. inversion E; subst.
+  apply filter_In in Hr. exists c. split; [apply sort_by_in in Hc; auto|tauto].
+Qed.
+
+Lemma components_quiet v u : quiet u = true -> components v u = Some (generic_table v u).
+Proof.
+  intros Q. destruct v; [|apply models_table_V31].
+  simpl. rewrite (models_table_V30_quiet u Q).
+  unfold quiet in Q. apply andb_true_iff in Q. destruct Q as [_ Q]. rewrite forallb_forall in Q.
+  assert (H : forall l t, (forall cr, In cr l -> In (snd cr) (all_routes_u u)) ->
+                          fold_left route_write_through l (Some t) = Some t).
+  { induction l as [|cr l IH]; intros t H; simpl; auto.
+    rewrite route_write_through_quiet.
+    - apply IH. intros x Hx. apply H; right; auto.
+    - apply Q. apply H. left; reflexivity. }
+  apply H. intros [c r] Hcr. simpl. eapply in_shown_routes; eauto.
+Qed.
+
+(* ---- what a name is mapped to ---- *)
+
+Lemma nodup_map_inj {A B} (f : A -> B) l a b :
+  NoDup (map f l) -> In a l -> In b l -> f a = f b -> a = b.
+Proof.
+  induction l as [|x l IH]; simpl; intros Hn Ha Hb E; [destruct Ha|].
+  inversion Hn as [|? ? Hx Hn']; subst.
+  destruct Ha as [->|Ha], Hb as [->|Hb]; auto.
+  - exfalso. apply Hx. rewrite E. apply in_map; auto.
+  - exfalso. apply Hx. rewrite <- E. apply in_map; auto.
+Qed.
+
+Lemma nodup_map_filter_local {A B} (f : A -> B) (g : A -> bool) l :
+  NoDup (map f l) -> NoDup (map f (filter g l)).
+Proof.
+  induction l as [|x l IH]; simpl; intros H; auto.
+  inversion H as [|? ? Hx Hn]; subst. destruct (g x); simpl; auto.
+  constructor; auto. intros Hin. apply Hx. apply in_map_iff in Hin. destruct Hin as [y [E Hy]].
+  apply filter_In in Hy. rewrite <- E. apply in_map. tauto.
+Qed.
+
+Lemma nodup_app_l {A} (a b : list A) : NoDup (a ++ b) -> NoDup a.
+Proof.
+  induction a as [|x a IH]; simpl; intros H; [constructor|].
+  inversion H as [|? ? Hx Hn]; subst. constructor; auto.
+  intros Hin. apply Hx. apply in_app_iff; auto.
+Qed.
+
+Lemma nodup_sorted_names u g :
+  NoDup (map d_name (reached_decls u)) -> NoDup (map d_name (sort_by d_name (filter g (reached_decls u)))).
+Proof.
+  intros H. eapply Permutation_NoDup.
+  - apply Permutation_map. apply sort_by_perm.
+  - apply nodup_map_filter_local. exact H.
+Qed.
+
+Theorem generic_table_lookup v u d :
+  unique_type_names u -> In d (reached_decls u) ->
+  lookup (generic_table v u) (d_name d) = Some (component v d).
+Proof.
+  intros Hu Hd. unfold unique_type_names, expected_names in Hu.
+  pose proof (nodup_app_l _ _ Hu) as Hn.
+  assert (Hrfc : plain_error_present u = true -> d_name d <> rfc_name).
+  { intros E He. rewrite E in Hu. apply NoDup_remove_2 in Hu. apply Hu.
+    rewrite app_nil_r. rewrite <- He. apply in_map. exact Hd. }
+  assert (Hother : forall d', In d' (reached_decls u) -> d_name d' = d_name d -> d' = d).
+  { intros d' Hd' E. eapply nodup_map_inj; eauto. }
+  unfold generic_table.
+  destruct (kind_cases d) as [[K1 [K2 K3]]|[[K1 [K2 K3]]|[K1 [K2 K3]]]].
+  - (* enum *)
+    rewrite set_all_lookup_other.
+    2:{ intros Hin. apply in_map_iff in Hin. destruct Hin as [d' [E Hd']].
+        unfold alias_decls in Hd'. apply filter_In in Hd'. destruct Hd' as [Hd' K].
+        rewrite (Hother d' Hd' E) in K. congruence. }
+    assert (L : lookup (set_all (component v) (sorted_structs u) (set_all (component v) (sorted_enums u) [])) (d_name d)
+                = Some (component v d)).
+    { rewrite set_all_lookup_other.
+      2:{ intros Hin. apply in_map_iff in Hin. destruct Hin as [d' [E Hd']].
+          unfold sorted_structs in Hd'. apply sort_by_in in Hd'. apply filter_In in Hd'. destruct Hd' as [Hd' K].
+          rewrite (Hother d' Hd' E) in K. congruence. }
+      apply set_all_lookup.
+      - apply nodup_sorted_names; auto.
+      - apply sort_by_in. apply filter_In; auto. }
+    unfold with_rfc. destruct (plain_error_present u) eqn:E; auto.
+    rewrite lookup_set_comp_other; auto. intros E'. apply (Hrfc eq_refl). auto.
+  - (* struct *)
+    rewrite set_all_lookup_other.
+    2:{ intros Hin. apply in_map_iff in Hin. destruct Hin as [d' [E Hd']].
+        unfold alias_decls in Hd'. apply filter_In in Hd'. destruct Hd' as [Hd' K].
+        rewrite (Hother d' Hd' E) in K. congruence. }
+    assert (L : lookup (set_all (component v) (sorted_structs u) (set_all (component v) (sorted_enums u) [])) (d_name d)
+                = Some (component v d)).
+    { apply set_all_lookup.
+      - apply nodup_sorted_names; auto.
+      - apply sort_by_in. apply filter_In; auto. }
+    unfold with_rfc. destruct (plain_error_present u) eqn:E; auto.
+    rewrite lookup_set_comp_other; auto. intros E'. apply (Hrfc eq_refl). auto.
+  - (* alias *)
+    apply set_all_lookup.
+    + unfold alias_decls. apply nodup_map_filter_local. exact Hn.
+    + apply filter_In; auto.
+Qed.
+
+(* C07: each reached declaration is documented by the schema of its own declaration *)
+Theorem components_lookup v u t d :
+  quiet u = true -> components v u = Some t -> unique_type_names u -> In d (reached_decls u) ->
+  lookup t (d_name d) = Some (component v d).
+Proof.
+  intros Q H Hu Hd. rewrite (components_quiet v u Q) in H. inversion H; subst.
+  apply generic_table_lookup; auto.
+Qed.
+
+Theorem components_lookup_V31 u t d :
+  components V31 u = Some t -> unique_type_names u -> In d (reached_decls u) ->
+  lookup t (d_name d) = Some (component V31 d).
+Proof.
+  intros H Hu Hd. simpl in H. rewrite models_table_V31 in H. inversion H; subst.
+  apply generic_table_lookup; auto.
+Qed.
+
+(* non-interference: the shared component depends on the declaration alone *)
+Theorem noninterference_V31 u u' t t' d :
+  components V31 u = Some t -> components V31 u' = Some t' ->
+  unique_type_names u -> unique_type_names u' ->
+  In d (reached_decls u) -> In d (reached_decls u') ->
+  lookup t (d_name d) = lookup t' (d_name d).
+Proof.
+  intros H H' Hu Hu' Hd Hd'.
+  rewrite (components_lookup_V31 u t d H Hu Hd), (components_lookup_V31 u' t' d H' Hu' Hd'). reflexivity.
+Qed.
+
+Theorem noninterference_quiet v u u' t t' d :
+  quiet u = true -> quiet u' = true ->
+  components v u = Some t -> components v u' = Some t' ->
+  unique_type_names u -> unique_type_names u' ->
+  In d (reached_decls u) -> In d (reached_decls u') ->
+  lookup t (d_name d) = lookup t' (d_name d).
+Proof.
+  intros Q Q' H H' Hu Hu' Hd Hd'.
+  rewrite (components_lookup v u t d Q H Hu Hd), (components_lookup v u' t' d Q' H' Hu' Hd'). reflexivity.
+Qed.
+
+(* ------------------------------------------------------------------ *)
+(* C07 shape: the schema of a declaration satisfies the per-kind clauses of the property text *)
+
+Lemma schema_eqb_refl_l a : schema_eqb a a = true.
+Proof. induction a; simpl; auto; rewrite ?str_eqb_refl; auto. Qed.
+
+Lemma evalue_eqb_refl a : evalue_eqb a a = true.
+Proof. destruct a; simpl; auto using str_eqb_refl. destruct b; reflexivity. Qed.
+
+Lemma list_eqb_refl_l {A} (eqb : A -> A -> bool) (H : forall x, eqb x x = true) l : list_eqb eqb l l = true.
+Proof. induction l; simpl; auto. rewrite H, IHl. reflexivity. Qed.
+
+Lemma mset_eqb_refl_l {A} (eqb : A -> A -> bool) (H : forall x, eqb x x = true) l : mset_eqb eqb l l = true.
+Proof. induction l; simpl; auto. rewrite H. exact IHl. Qed.
+
+Lemma filter_filter {A} (f g : A -> bool) l : filter f (filter g l) = filter (fun x => g x && f x) l.
+Proof.
+  induction l as [|x l IH]; simpl; auto.
+  destruct (g x); simpl; [destruct (f x); simpl; rewrite IH; reflexivity|exact IH].
+Qed.
+
+Lemma plain_fields_text fs :
+  plain_fields fs = filter (fun f => negb (f_embedded f) && is_exported (f_name f) && negb (json_dash f)) fs.
+Proof.
+  unfold plain_fields. rewrite filter_filter. apply filter_ext. intros f. unfold visible.
+  destruct (f_embedded f), (is_exported (f_name f)), (json_dash f); reflexivity.
+Qed.
+
+Lemma embedded_fields_text fs :
+  embedded_fields fs = filter (fun f => f_embedded f && negb (is_error_field f)) fs.
+Proof.
+  unfold embedded_fields. rewrite filter_filter. apply filter_ext. intros f. unfold visible.
+  destruct (f_embedded f), (is_exported (f_name f)), (json_dash f), (is_error_field f); reflexivity.
+Qed.
+
+(* properties built by assignment: names are unique, every field has an entry, every entry
+   comes from a field *)
+Lemma set_prop_names l n x y : In y (map fst (set_prop l n x)) <-> In y (map fst l) \/ y = n.
+Proof.
+  induction l as [|[m z] l IH]; simpl.
+  - split; intros [H|H]; auto; contradiction.
+  - destruct (str_eqb m n) eqn:E; simpl.
+    + apply str_eqb_spec in E. subst. split; intros H; intuition (subst; auto).
+    + rewrite IH. tauto.
+Qed.
+
+Lemma set_prop_nodup l n x : NoDup (map fst l) -> NoDup (map fst (set_prop l n x)).
+Proof.
+  induction l as [|[m z] l IH]; simpl; intros H.
+  - constructor; [intros []|constructor].
+  - inversion H as [|? ? Hm Hl]; subst. destruct (str_eqb m n) eqn:E; simpl.
+    + constructor; auto.
+    + constructor; auto. intros Hin. apply set_prop_names in Hin. destruct Hin as [Hin|Hin]; auto.
+      subst. rewrite str_eqb_refl in E. discriminate.
+Qed.
+
+Lemma set_prop_entries l n x e : In e (set_prop l n x) -> e = (n, x) \/ In e l.
+Proof.
+  induction l as [|[m z] l IH]; simpl.
+  - intros [H|[]]; auto.
+  - destruct (str_eqb m n) eqn:E; simpl.
+    + apply str_eqb_spec in E. subst. intros [H|H]; auto.
+    + intros [H|H]; auto. destruct (IH H); auto.
+Qed.
+
+Definition props_of (fs : list field) (acc : list (str * schema)) : list (str * schema) :=
+  fold_left (fun acc f => set_prop acc (json_name f) (field_schema f)) fs acc.
+
+Lemma props_of_spec fs : forall acc,
+  (forall y, In y (map fst (props_of fs acc)) <-> In y (map fst acc) \/ In y (map json_name fs)) /\
+  (NoDup (map fst acc) -> NoDup (map fst (props_of fs acc))) /\
+  (forall e, In e (props_of fs acc) -> In e acc \/ exists f, In f fs /\ e = (json_name f, field_schema f)).
+Proof.
+  induction fs as [|f fs IH]; intros acc; simpl.
+  - split; [intros; tauto|]. split; auto.
+  - destruct (IH (set_prop acc (json_name f) (field_schema f))) as [A [B C]]. unfold props_of in *. simpl.
+    split; [|split].
+    + intros y. rewrite A, set_prop_names. intuition (subst; auto).
+    + intros H. apply B. apply set_prop_nodup; auto.
+    + intros e He. apply C in He. destruct He as [He|[f' [Hf' E]]].
+      * apply set_prop_entries in He. destruct He as [He|He]; auto. right. exists f; auto.
+      * right. exists f'; auto.
+Qed.
+
+Lemma nodup_b_spec l : nodup_b l = true <-> NoDup l.
+Proof.
+  induction l as [|x l IH]; simpl.
+  - split; [constructor|reflexivity].
+  - rewrite andb_true_iff, negb_true_iff, IH. split.
+    + intros [H1 H2]. constructor; auto. intros Hin. apply mem_str in Hin. congruence.
+    + intros H. inversion H as [|? ? Hx Hl]; subst. split; auto.
+      destruct (mem str_eqb x l) eqn:E; auto. apply mem_str in E. contradiction.
+Qed.
+
+Lemma json_name_text_eq f : json_name_text f = json_name f.
+Proof. reflexivity. Qed.
+
+Theorem struct_shape fs : struct_by_text fs (struct_comp fs) = true.
+Proof.
+  unfold struct_by_text. rewrite <- plain_fields_text, <- embedded_fields_text.
+  unfold struct_comp; cbn [k_type k_props k_required k_allof k_enum].
+  fold (props_of (plain_fields fs) []).
+  destruct (props_of_spec (plain_fields fs) []) as [A [B C]].
+  rewrite str_eqb_refl, andb_true_r. cbn [andb].
+  repeat (apply andb_true_iff; split).
+  - apply forallb_forall. intros f Hf. apply existsb_exists.
+    assert (Hin : In (json_name f) (map fst (props_of (plain_fields fs) []))).
+    { apply A. right. apply in_map; auto. }
+    apply in_map_iff in Hin. destruct Hin as [p [E Hp]]. exists p. split; auto.
+    rewrite E. apply str_eqb_refl.
+  - apply forallb_forall. intros p Hp. apply existsb_exists.
+    destruct (C p Hp) as [[]|[f [Hf E]]]. exists f. split; auto. subst p. simpl.
+    rewrite str_eqb_refl, schema_eqb_refl_l. reflexivity.
+  - apply nodup_b_spec. apply B. constructor.
+  - apply mset_eqb_refl_l. apply str_eqb_refl.
+  - apply list_eqb_refl_l. apply schema_eqb_refl_l.
+Qed.
+
+Theorem enum_shape_V31 base consts : enum_by_text base consts (enum_comp V31 base consts) = true.
+Proof.
+  unfold enum_by_text, enum_comp; cbn [k_type k_props k_required k_allof k_enum is_nil].
+  rewrite str_eqb_refl, !andb_true_r. cbn [andb].
+  apply (mset_eqb_refl_l evalue_eqb evalue_eqb_refl).
+Qed.
+
+(* in 3.0 every value is emitted as a string: the clause only holds for string enums (F18) *)
+Theorem enum_shape_V30 base consts :
+  is_string_base base = true -> enum_by_text base consts (enum_comp V30 base consts) = true.
+Proof.
+  intros H. unfold enum_by_text, enum_comp; cbn [k_type k_props k_required k_allof k_enum is_nil].
+  rewrite str_eqb_refl, !andb_true_r. cbn [andb].
+  unfold typed_value, enum_value. unfold is_string_base in H. rewrite H.
+  apply (mset_eqb_refl_l evalue_eqb evalue_eqb_refl).
+Qed.
+
+Theorem alias_shape rhs : alias_by_text rhs (alias_comp rhs) = true.
+Proof.
+  unfold alias_by_text, alias_comp; cbn [k_type k_props k_required k_allof k_enum is_nil].
+  rewrite str_eqb_refl. reflexivity.
+Qed.
+
+Definition string_enum_or_other (d : decl) : bool :=
+  match d_body d with DEnum base _ => is_string_base base | _ => true end.
+
+Theorem component_shape v d :
+  (v = V31 \/ string_enum_or_other d = true) -> decl_by_text d (component v d) = true.
+Proof.
+  intros H. unfold decl_by_text, component, string_enum_or_other in *. destruct (d_body d).
+  - apply struct_shape.
+  - destruct v.
+    + destruct H as [H|H]; [discriminate|]. apply enum_shape_V30; auto.
+    + apply enum_shape_V31.
+  - apply alias_shape.
+Qed.
+
+(* ------------------------------------------------------------------ *)
+(* C08: every $ref the model emits resolves in the model's components *)
+
+Definition prim_ok (n : str) : bool := match leaf_schema n with SRef _ => false | _ => true end.
+
+(* every predeclared identifier used is one gleece maps to a schema (byte only inside []byte) *)
+Fixpoint texpr_ok (t : texpr) : bool :=
+  match t with
+  | TPrim n => prim_ok n
+  | TTime => true
+  | TNamed _ _ => true
+  | TPtr e => texpr_ok e
+  | TSlice e => str_eqb (type_string e) (s "byte") || texpr_ok e
+  | TMap _ v => texpr_ok v
+  end.
+
+Lemma leaf_schema_refs n x : In x (schema_refs (leaf_schema n)) -> x = n.
+Proof.
+  unfold leaf_schema.
+  destruct (str_eqb (openapi_type n) (s "binary")); [intros []|].
+  destruct (str_eqb (openapi_type n) (s "date-time")); [intros []|].
+  destruct (str_eqb (openapi_type n) (s "object")); [|intros []].
+  destruct (one_of n _); [intros []|]. simpl. intros [H|[]]; auto.
+Qed.
+
+Lemma leaf_schema_cases n : leaf_schema n = SRef n \/ schema_refs (leaf_schema n) = [].
+Proof.
+  unfold leaf_schema.
+  destruct (str_eqb (openapi_type n) (s "binary")); auto.
+  destruct (str_eqb (openapi_type n) (s "date-time")); auto.
+  destruct (str_eqb (openapi_type n) (s "object")); auto.
+  destruct (one_of n _); auto.
+Qed.
+
+Lemma schema_of_texpr_refs t x :
+  texpr_ok t = true -> In x (schema_refs (schema_of_texpr t)) -> exists p, In (p, x) (refs_of t).
+Proof.
+  induction t as [n| |p n|e IH|e IH|k _ v IH]; simpl; intros Hok H.
+  - unfold prim_ok in Hok. destruct (leaf_schema_cases n) as [E|E].
+    + rewrite E in Hok. discriminate.
+    + rewrite E in H. destruct H.
+  - vm_compute in H. destruct H.
+  - apply leaf_schema_refs in H. subst. exists p. auto.
+  - auto.
+  - destruct (str_eqb (type_string e) (s "byte")); [destruct H|]. simpl in *. auto.
+  - simpl in H. destruct (IH Hok H) as [p Hp]. exists p. apply in_app_iff. auto.
+Qed.
+
+Lemma apply_format_cases validate t sch :
+  apply_format validate t sch = sch \/ exists f, apply_format validate t sch = SType (s "string") f.
+Proof.
+  unfold apply_format. destruct (str_eqb (type_string t) (s "string")); auto.
+  generalize (rules_of validate). intros l.
+  assert (G : forall acc, (acc = sch \/ exists f, acc = SType (s "string") f) ->
+              fold_left (fun acc r => match format_of_rule (rule_name r) with
+                                      | Some f => SType (s "string") f
+                                      | None => acc end) l acc = sch \/
+              exists f, fold_left (fun acc r => match format_of_rule (rule_name r) with
+                                                | Some f => SType (s "string") f
+                                                | None => acc end) l acc = SType (s "string") f).
+  { induction l as [|r l IH]; intros acc H; simpl; auto.
+    apply IH. destruct (format_of_rule (rule_name r)); eauto. }
+  apply G. auto.
+Qed.
+
+Lemma apply_format_refs validate t sch x :
+  In x (schema_refs (apply_format validate t sch)) -> In x (schema_refs sch).
+Proof.
+  destruct (apply_format_cases validate t sch) as [E|[f E]]; rewrite E; auto. intros [].
+Qed.
+
+Definition universe_ok (u : universe) : Prop :=
+  NoDup (decl_keys u) /\
+  (forall r, In r (all_routes_u u) ->
+     (forall k, In k (route_refs r) -> In k (decl_keys u)) /\
+     (forall p, In p (r_params r) -> texpr_ok (rp_type p) = true) /\
+     (forall t, r_ret r = Some t -> texpr_ok t = true)) /\
+  (forall d, In d (u_decls u) ->
+     (forall k, In k (decl_refs d) -> In k (decl_keys u)) /\
+     (forall f, In f (struct_fields d) -> visible f = true -> texpr_ok (f_type f) = true)).
+
+Lemma find_decl_nodup u d : NoDup (decl_keys u) -> In d (u_decls u) -> find_decl u (decl_key d) = Some d.
+Proof.
+  unfold find_decl, decl_keys. induction (u_decls u) as [|d0 l IH]; simpl; intros Hn Hd; [destruct Hd|].
+  inversion Hn as [|? ? Hx Hl]; subst. destruct Hd as [->|Hd].
+  - rewrite key_eqb_refl. reflexivity.
+  - destruct (key_eqb (decl_key d0) (decl_key d)) eqn:E.
+    + apply key_eqb_spec in E. exfalso. apply Hx. rewrite E. apply in_map; auto.
+    + apply IH; auto.
+Qed.
+
+Lemma in_reached_decls_iff u d : In d (reached_decls u) <-> In d (u_decls u) /\ In (decl_key d) (reach u).
+Proof. unfold reached_decls, in_keys. rewrite filter_In, mem_key. tauto. Qed.
+
+(* a reached key is the key of a reached declaration, whose name is a component key *)
+Lemma reach_expected u p x : In (p, x) (reach u) -> In x (expected_names u).
+Proof.
+  intros H. pose proof (reach_declared u _ H) as Hd. unfold decl_keys in Hd.
+  apply in_map_iff in Hd. destruct Hd as [d [E Hd]].
+  unfold expected_names. apply in_app_iff. left. apply in_map_iff. exists d. split.
+  - unfold decl_key in E. inversion E; reflexivity.
+  - apply in_reached_decls_iff. split; auto. rewrite E. exact H.
+Qed.
+
+Lemma route_ref_expected u r p x :
+  universe_ok u -> In r (all_routes_u u) -> In (p, x) (route_refs r) -> In x (expected_names u).
+Proof.
+  intros [_ [Hr _]] Hin Hx. apply (reach_expected u p). apply reach_roots. apply roots_in. split.
+  - apply in_flat_map. exists r; auto.
+  - apply (proj1 (Hr r Hin)); auto.
+Qed.
+
+Lemma decl_ref_expected u d p x :
+  universe_ok u -> In d (reached_decls u) -> In (p, x) (decl_refs d) -> In x (expected_names u).
+Proof.
+  intros [Hn [_ Hd]] Hin Hx. apply in_reached_decls_iff in Hin. destruct Hin as [Hin Hr].
+  apply (reach_expected u p). eapply reach_closed; [exact Hr|].
+  unfold succs. rewrite (find_decl_nodup u d Hn Hin). apply filter_In. split; auto.
+  apply declared_key_in. apply (proj1 (Hd d Hin)); auto.
+Qed.
+
+Definition good (u : universe) (c : comp) : Prop := forall x, In x (comp_refs c) -> In x (expected_names u).
+
+Definition all_good (u : universe) (t : table) : Prop := forall e, In e t -> good u (snd e).
+
+Lemma good_with_enum u c e : good u c -> good u (with_enum c e).
+Proof. unfold good, with_enum, comp_refs; simpl. auto. Qed.
+
+Lemma all_good_set_comp u t n c : all_good u t -> good u c -> all_good u (set_comp t n c).
+Proof.
+  intros Ht Hc e He. apply in_set_comp in He. destruct He as [->|He]; auto.
+Qed.
+
+Lemma lookup_in t n c : lookup t n = Some c -> In (n, c) t.
+Proof.
+  induction t as [|[m c'] t IH]; simpl; [discriminate|].
+  destruct (str_eqb m n) eqn:E; intros H.
+  - apply str_eqb_spec in E. inversion H; subst. auto.
+  - auto.
+Qed.
+
+Lemma write_through_good u t sch v t' : write_through t sch v = Some t' -> all_good u t -> all_good u t'.
+Proof.
+  unfold write_through. destruct sch; try (intros H; inversion H; subst; auto).
+  destruct (touches v); [|inversion H; subst; auto].
+  destruct (lookup t name) eqn:E; [|discriminate]. inversion H; subst. intros Ht.
+  apply all_good_set_comp; auto. apply good_with_enum. apply (Ht (name, c)). apply lookup_in; auto.
+Qed.
+
+Lemma thread_good {A} u (g : table -> A -> option table) :
+  (forall t x t', g t x = Some t' -> all_good u t -> all_good u t') ->
+  forall l t t', fold_left (thread g) l (Some t) = Some t' -> all_good u t -> all_good u t'.
+Proof.
+  intros Hg. induction l as [|x l IH]; intros t t' H Ht; simpl in H.
+  - inversion H; subst; auto.
+  - destruct (g t x) eqn:E; [|rewrite thread_none in H; discriminate].
+    eapply IH; eauto.
+Qed.
+
+Lemma good_enum_alias u v d : is_struct d = false -> good u (component v d).
+Proof.
+  unfold is_struct, component. destruct (d_body d); try discriminate; intros _ x H; destruct H.
+Qed.
+
+Lemma good_rfc u : good u rfc_comp.
+Proof. intros x H. vm_compute in H. destruct H. Qed.
+
+Lemma good_struct u d :
+  universe_ok u -> In d (reached_decls u) -> good u (struct_comp (struct_fields d)).
+Proof.
+  intros Hu Hd x Hx.
+  assert (Hdecl : In d (u_decls u)) by (apply in_reached_decls_iff in Hd; tauto).
+  pose proof Hu as [Hn [Hr Hds]]. destruct (Hds d Hdecl) as [_ Hok].
+  assert (Hrefs : forall f, In f (struct_fields d) -> visible f = true ->
+                  forall p, In (p, x) (refs_of (f_type f)) -> In x (expected_names u)).
+  { intros f Hf Hv p Hp. apply (decl_ref_expected u d p x Hu Hd).
+    clear -Hf Hv Hp. unfold decl_refs, struct_fields in *. destruct (d_body d); try (destruct Hf).
+    apply in_flat_map. exists f. split; auto. apply filter_In; auto. }
+  unfold comp_refs, struct_comp in Hx; cbn [k_props k_allof] in Hx.
+  apply in_app_iff in Hx. destruct Hx as [Hx|Hx].
+  - apply in_flat_map in Hx. destruct Hx as [pr [Hpr Hx]].
+    fold (props_of (plain_fields (struct_fields d)) []) in Hpr.
+    destruct (props_of_spec (plain_fields (struct_fields d)) []) as [_ [_ C]].
+    destruct (C pr Hpr) as [[]|[f [Hf E]]]. subst pr. simpl in Hx.
+    unfold field_schema in Hx. apply apply_format_refs in Hx.
+    unfold plain_fields in Hf. apply filter_In in Hf. destruct Hf as [Hf _]. apply filter_In in Hf.
+    destruct Hf as [Hf Hv].
+    destruct (schema_of_texpr_refs _ _ (Hok f Hf Hv) Hx) as [p Hp]. eapply Hrefs; eauto.
+  - apply in_flat_map in Hx. destruct Hx as [sc [Hsc Hx]]. apply in_map_iff in Hsc.
+    destruct Hsc as [f [E Hf]]. subst sc.
+    unfold embedded_fields in Hf. apply filter_In in Hf. destruct Hf as [Hf _]. apply filter_In in Hf.
+    destruct Hf as [Hf Hv].
+    destruct (schema_of_texpr_refs _ _ (Hok f Hf Hv) Hx) as [p Hp]. eapply Hrefs; eauto.
+Qed.
+
+Lemma good_component u v d : universe_ok u -> In d (reached_decls u) -> good u (component v d).
+Proof.
+  intros Hu Hd. destruct (is_struct d) eqn:K.
+  - rewrite component_struct by exact K. apply good_struct; auto.
+  - apply good_enum_alias; auto.
+Qed.
+
+Lemma set_all_good u v l : forall t,
+  universe_ok u -> (forall d, In d l -> In d (reached_decls u)) -> all_good u t ->
+  all_good u (set_all (component v) l t).
+Proof.
+  intros t Hu Hl Ht e He. apply set_all_entries in He. destruct He as [He|[d [Hd E]]]; auto.
+  subst e. simpl. apply good_component; auto.
+Qed.
+
+Lemma emit_struct30_good u t d t' :
+  universe_ok u -> In d (reached_decls u) -> all_good u t ->
+  emit_struct30 (Some t) (d_name d) (struct_fields d) = Some t' -> all_good u t'.
+Proof.
+  intros Hu Hd Ht H. unfold emit_struct30 in H.
+  change (fun a f => match a with
+                     | Some t0 => write_through t0 (schema_of_texpr (f_type f)) (f_validate f)
+                     | None => None end)
+    with (thread (fun t0 (f : field) => write_through t0 (schema_of_texpr (f_type f)) (f_validate f))) in H.
+  destruct (fold_left _ (plain_fields (struct_fields d)) (Some t)) as [t1|] eqn:E; [|discriminate].
+  inversion H; subst. apply all_good_set_comp; [|apply good_struct; auto].
+  eapply thread_good; [|exact E|exact Ht]. intros t2 x t3 Hx. eapply write_through_good; exact Hx.
+Qed.
+
+Lemma structs30_good u l : forall t t',
+  universe_ok u -> (forall d, In d l -> In d (reached_decls u)) -> all_good u t ->
+  structs30 l (Some t) = Some t' -> all_good u t'.
+Proof.
+  induction l as [|d l IH]; intros t t' Hu Hl Ht H.
+  - unfold structs30 in H; simpl in H. inversion H; subst; auto.
+  - unfold structs30 in H; simpl in H.
+    destruct (emit_struct30 (Some t) (d_name d) (struct_fields d)) as [t2|] eqn:E.
+    + fold (structs30 l (Some t2)) in H. eapply IH; [exact Hu| |..|exact H].
+      * intros d' Hd'. apply Hl; right; auto.
+      * eapply emit_struct30_good; [exact Hu| |exact Ht|exact E]. apply Hl; left; reflexivity.
+    + fold (structs30 l None) in H. rewrite structs30_none in H. discriminate.
+Qed.
+
+Lemma sorted_in_reached u g d : In d (sort_by d_name (filter g (reached_decls u))) -> In d (reached_decls u).
+Proof. intros H. apply sort_by_in in H. apply filter_In in H. tauto. Qed.
+
+Lemma models_table_good v u t : universe_ok u -> models_table v u = Some t -> all_good u t.
+Proof.
+  intros Hu. unfold models_table.
+  fold (set_all (component v) (sorted_enums u) []).
+  assert (G0 : all_good u (set_all (component v) (sorted_enums u) [])).
+  { apply set_all_good; auto.
+    - intros d Hd. eapply sorted_in_reached; eauto.
+    - intros e []. }
+  assert (G1 : forall t1,
+             match v with
+             | V30 => fold_left (fun a d => emit_struct30 a (d_name d) (struct_fields d)) (sorted_structs u)
+                                (Some (set_all (component v) (sorted_enums u) []))
+             | V31 => Some (fold_left (fun t d => set_comp t (d_name d) (component v d)) (sorted_structs u)
+                                      (set_all (component v) (sorted_enums u) []))
+             end = Some t1 -> all_good u t1).
+  { intros t1. destruct v; intros H.
+    - fold (structs30 (sorted_structs u) (Some (set_all (component V30) (sorted_enums u) []))) in H.
+      eapply structs30_good; [exact Hu| |exact G0|exact H]. intros d Hd. eapply sorted_in_reached; eauto.
+    - inversion H; subst. fold (set_all (component V31) (sorted_structs u) (set_all (component V31) (sorted_enums u) [])).
+      apply set_all_good; auto. intros d Hd. eapply sorted_in_reached; eauto. }
+  destruct (match v with V30 => _ | V31 => _ end) as [t1|] eqn:E1; [|discriminate].
+  pose proof (G1 t1 eq_refl) as G. intros H. inversion H; subst.
+  fold (set_all (component v) (alias_decls u) (if plain_error_present u then set_comp t1 rfc_name rfc_comp else t1)).
+  apply set_all_good; auto.
+  - intros d Hd. unfold alias_decls in Hd. apply filter_In in Hd. tauto.
+  - destruct (plain_error_present u); auto. apply all_good_set_comp; auto. apply good_rfc.
+Qed.
+
+Lemma components_good v u t : universe_ok u -> components v u = Some t -> all_good u t.
+Proof.
+  intros Hu. destruct v; simpl; [|apply models_table_good; auto].
+  destruct (models_table V30 u) as [t0|] eqn:E; [|rewrite routes_write_through_none; discriminate].
+  pose proof (models_table_good V30 u t0 Hu E) as G0.
+  clear E. generalize (shown_routes u). intros l. revert t0 G0.
+  induction l as [|cr l IH]; intros t0 G0 H; simpl in H.
+  - inversion H; subst; auto.
+  - destruct (route_write_through (Some t0) cr) as [t1|] eqn:E1.
+    + eapply IH; [|exact H]. unfold route_write_through in E1.
+      change (fun a p => match a with
+                         | Some t2 => write_through t2 (schema_of_texpr (rp_type p)) (rp_reduced p)
+                         | None => None end)
+        with (thread (fun t2 (p : rparam) => write_through t2 (schema_of_texpr (rp_type p)) (rp_reduced p))) in E1.
+      eapply thread_good; [|exact E1|exact G0]. intros t2 x t3 Hx. eapply write_through_good; exact Hx.
+    + rewrite routes_write_through_none in H. discriminate.
+Qed.
+
+(* ---- operations ---- *)
+
+Lemma rp_schema_refs u r p x :
+  universe_ok u -> In r (all_routes_u u) -> In p (r_params r) ->
+  In x (schema_refs (rp_schema p)) -> In x (expected_names u).
+Proof.
+  intros Hu Hr Hp Hx. unfold rp_schema in Hx. apply apply_format_refs in Hx.
+  pose proof Hu as [_ [Hroutes _]]. destruct (Hroutes r Hr) as [_ [Hok _]].
+  destruct (schema_of_texpr_refs _ _ (Hok p Hp) Hx) as [q Hq].
+  apply (route_ref_expected u r q x Hu Hr). unfold route_refs. apply in_app_iff. left.
+  apply in_flat_map. exists p; auto.
+Qed.
+
+Lemma set_prop_refs l n x y :
+  In y (flat_map (fun p : str * schema => schema_refs (snd p)) (set_prop l n x)) ->
+  In y (schema_refs x) \/ In y (flat_map (fun p : str * schema => schema_refs (snd p)) l).
+Proof.
+  rewrite !in_flat_map. intros [e [He Hy]]. apply set_prop_entries in He. destruct He as [->|He]; auto.
+  right. exists e; auto.
+Qed.
+
+Lemma route_body_refs ps : forall acc y,
+  In y (body_refs (fold_left (fun acc p =>
+    match rp_loc p with
+    | LBody => BJson (has_required_tag (rp_reduced p)) (rp_schema p)
+    | LForm =>
+        let pr := (rp_wire p, rp_schema p) in
+        let rq := if has_required_tag (rp_reduced p) then [rp_wire p] else [] in
+        match acc with
+        | BForm props r => BForm (set_prop props (rp_wire p) (rp_schema p)) (r ++ rq)
+        | BNone => BForm [pr] rq
+        | BJson _ _ => acc
+        end
+    | _ => acc
+    end) ps acc)) ->
+  In y (body_refs acc) \/ exists p, In p ps /\ In y (schema_refs (rp_schema p)).
+Proof.
+  induction ps as [|p ps IH]; intros acc y H; simpl in H; auto.
+  apply IH in H. destruct H as [H|[q [Hq H]]].
+  - destruct (rp_loc p); auto.
+    + destruct acc; simpl in H.
+      * rewrite app_nil_r in H. right. exists p. simpl. auto.
+      * auto.
+      * apply set_prop_refs in H. destruct H as [H|H]; auto. right. exists p. simpl; auto.
+    + simpl in H. right. exists p. simpl; auto.
+  - right. exists q. simpl; auto.
+Qed.
+
+Lemma mk_dop_refs u c r x :
+  universe_ok u -> In r (all_routes_u u) -> In x (dop_refs (mk_dop (u_cfg u) c r)) -> In x (expected_names u).
+Proof.
+  intros Hu Hr Hx. unfold dop_refs, mk_dop in Hx; cbn [dop_params dop_body dop_resps] in Hx.
+  rewrite !in_app_iff in Hx. destruct Hx as [Hx|[Hx|Hx]].
+  - apply in_flat_map in Hx. destruct Hx as [op [Hop Hx]]. apply in_map_iff in Hop.
+    destruct Hop as [p [E Hp]]. subst op. simpl in Hx. apply filter_In in Hp.
+    eapply rp_schema_refs; eauto. tauto.
+  - unfold route_body in Hx. apply route_body_refs in Hx. destruct Hx as [[]|[p [Hp Hx]]].
+    eapply rp_schema_refs; eauto.
+  - apply in_flat_map in Hx. destruct Hx as [rs [Hrs Hx]]. unfold route_resps in Hrs.
+    apply in_app_iff in Hrs. destruct Hrs as [Hrs|[Hrs|[]]].
+    + apply in_map_iff in Hrs. destruct Hrs as [cd [E _]]. subst rs. simpl in Hx.
+      destruct Hx as [Hx|[]]. subst x. unfold err_name. destruct (r_err r) as [k|] eqn:E.
+      * destruct k as [p n]. simpl. apply (route_ref_expected u r p n Hu Hr).
+        unfold route_refs. rewrite E. rewrite !in_app_iff. right; right. left; reflexivity.
+      * unfold expected_names. apply in_app_iff. right.
+        assert (P : plain_error_present u = true).
+        { unfold plain_error_present. apply orb_true_iff. left. apply existsb_exists. exists r.
+          rewrite E. auto. }
+        rewrite P. left; reflexivity.
+    + subst rs. simpl in Hx. destruct (r_ret r) as [t|] eqn:E; [|destruct Hx].
+      pose proof Hu as [_ [Hroutes _]]. destruct (Hroutes r Hr) as [_ [_ Hok]].
+      destruct (schema_of_texpr_refs _ _ (Hok t E) Hx) as [q Hq].
+      apply (route_ref_expected u r q x Hu Hr). unfold route_refs. rewrite E.
+      rewrite !in_app_iff. right; left. exact Hq.
+Qed.
+
+Lemma in_set_dop l o x : In x (set_dop l o) -> x = o \/ In x l.
+Proof.
+  unfold set_dop. rewrite in_app_iff, filter_In. simpl. intros [[H _]|[H|[]]]; auto.
+Qed.
+
+Lemma in_fold_set_dop l : forall acc x, In x (fold_left set_dop l acc) -> In x acc \/ In x l.
+Proof.
+  induction l as [|o l IH]; intros acc x H; simpl in *; auto.
+  apply IH in H. destruct H as [H|H]; auto. apply in_set_dop in H. destruct H; auto.
+Qed.
+
+(* C08: the document the model emits has no dangling reference *)
+Theorem emit_refs_closed v u d : universe_ok u -> emit v u = Some d -> refs_closed d = true.
+Proof.
+  intros Hu H. unfold emit in H.
+  destruct (negb (security_ok u)); [discriminate|].
+  destruct (components V30 u) as [t30|]; [|discriminate].
+  destruct (components v u) as [t|] eqn:E; [|discriminate].
+  inversion H; subst d. clear H.
+  unfold refs_closed, doc_refs; cbn [doc_ops doc_comps].
+  destruct (components_keys v u t E) as [K _].
+  apply forallb_forall. intros x Hx. apply mem_str. apply K.
+  apply in_app_iff in Hx. destruct Hx as [Hx|Hx].
+  - apply in_flat_map in Hx. destruct Hx as [o [Ho Hx]].
+    apply in_fold_set_dop in Ho. destruct Ho as [[]|Ho].
+    apply in_map_iff in Ho. destruct Ho as [[c r] [Eo Hcr]]. subst o. simpl in Hx.
+    eapply mk_dop_refs; eauto. eapply in_shown_routes; eauto.
+  - apply in_flat_map in Hx. destruct Hx as [e [He Hx]].
+    apply (components_good v u t Hu E e He). exact Hx.
+Qed.
